@@ -299,6 +299,8 @@ def run(prog, ctx):
         o8b(prog, ctx)
         o9(prog, ctx)
         o10(prog, ctx)
+        o11_list_members(prog, ctx)
+        o12_root_prefix(prog, ctx)
         ok, cut = rcfg.all_paths_cut(rcfg.block_of(jc[0]), lambda lit, b, i: lit is not None and lit.atom.endswith("->join_same_entries") and lit.pol)
         if ok and cut:
             ctx.ok("O6", "join_same_entries() runs only under the option", jc[0].where, "behind `ef->join_same_entries`")
@@ -417,6 +419,64 @@ def o10(prog, ctx):
     from rules import C11 as _C11
     _common.import_obligations(ctx, prog, [_C11.a4, _C11.a4_no_entry_passed_over], "O10", "look-ups find the entry that holds the joined value: ",
                                what="lookup of the entry")
+
+
+def o11_list_members(prog, ctx, rule="O11"):
+    """O11: the members of PARSING_DIRS= / CONFIG_DIRS= are what stands between the colons, empty members included: an empty directory is
+    what econf_readDirs*() makes of a NULL argument and an empty postfix names <dir>/<name>/ itself.  strsep() keeps them, strtok() /
+    strtok_r() skip them (and runs of separators)."""
+    from rules.C01 import enclosing_loop as _el
+    f = prog.fn("econf_newKeyFile_with_options")
+    ctx.touch(f)
+    n = 0
+    for field in ("parse_dirs", "conf_dirs"):
+        sts = [st for lhs, rhs, st, kind in query.stores(f) if lhs.strip().k == "ArraySubscriptExpr" and render(lhs.strip().children[0]).endswith("->" + field)
+               and rhs is not None and not rhs.is_null_const()]
+        if not sts:
+            ctx.inconclusive(rule, "members of the %s list" % field, f.where, "no store of a member found")
+            continue
+        for st in sts:
+            lp = _el(st)
+            toks = set()
+            if lp is not None:
+                for part in ("cond", "init", "inc"):
+                    pn = lp.child(part)
+                    if pn is not None:
+                        toks |= set(x.j.get("callee") for x in pn.walk() if x.k == "CallExpr" and x.j.get("callee") in ("strsep", "strtok", "strtok_r"))
+            n += 1
+            every_round = True
+            if lp is not None:
+                cfg = f.cfg
+                hb = cfg.loop_header(lp)
+                if hb is not None:
+                    body_entry = [s2 for (b, i, s2) in cfg.edges() if b == hb and s2 in cfg.natural_loop(hb) and s2 != hb]
+                    sb = cfg.block_of(st)
+                    # a way round the loop that does not pass the store (NOMEM exits leave the function, they do not go round)
+                    every_round = all(be == sb or hb not in cfg.reachable(be, avoid_blocks=[sb]) for be in body_entry)
+            if toks and toks <= {"strsep"} and not every_round:
+                ctx.fail(rule, "members of the %s list" % field, st.where,
+                         "some rounds of the splitting loop store no member (empty members are skipped): a list of empty members only leaves the array allocated "
+                         "with a count of 0 - for the readers `count == 0` means \"no list\", they install the default list over the pointer (the array leaks) and an "
+                         "empty directory / postfix can no longer be named" % (), key="list-member-skipped:%s" % field)
+            elif toks and toks <= {"strsep"}:
+                ctx.ok(rule, "members of the %s list" % field, st.where, "split with strsep(): every separator ends a member, empty ones included")
+            elif toks & {"strtok", "strtok_r"}:
+                ctx.fail(rule, "members of the %s list" % field, st.where,
+                         "split with %s(), which skips empty members: `%s=:` no longer names two empty directories (= econf_readDirs*(NULL, NULL)) but none at all, "
+                         "and the read falls back to the default layers; an empty postfix (the directory itself) cannot be named" % (
+                             sorted(toks & {"strtok", "strtok_r"})[0], field.upper()), key="list-tokenizer:%s" % field)
+            else:
+                ctx.inconclusive(rule, "members of the %s list" % field, st.where, "the list is split in a form not understood")
+    ctx.counts["%s list member stores" % rule] = n
+
+
+def o12_root_prefix(prog, ctx):
+    """O12: ROOT_PREFIX=<dir> has its documented effect - the default layers are looked up below <dir>: <dir>/<usr_subdir>, <dir>/run,
+    <dir>/etc (with and without a project directory), composed like the unprefixed ones (= C01.L1)."""
+    from rules import common as _common
+    from rules import C01 as _C01
+    _common.import_obligations(ctx, prog, [_C01.l1], "O12", "ROOT_PREFIX prefixes the default layers: ", keep=lambda ob: "layer" in ob.instance,
+                               what="composition of the default layers")
 
 
 def o9(prog, ctx):
